@@ -177,8 +177,11 @@ class World:
                 self.fitted = True
                 self.resumed_instance = True
             elif kind == "resume-sample":
+                # the documented continuation of a resumed instance: no sampler argument (optionally inside a context / with a path)
+                how = act[1] if len(act) > 1 else "none"
+                kw = {"checkpoint_path": self.path} if how == "path" else {}
                 torch.manual_seed(1)
-                self.a.sample_posterior(n_steps=1, adaptive=False, sampler_kwargs={"n_steps": 1}, preconditioning="none")
+                self.a.sample_posterior(n_steps=1, adaptive=False, sampler_kwargs={"n_steps": 1}, preconditioning="none", **kw)
                 self.last_file_sampler = SAMPLER_CLASS.get(getattr(self.a, "_last_sampler_type", None), self.last_file_sampler)
             else:
                 raise ValueError(act)
@@ -305,6 +308,8 @@ def enabled(w):
         acts.append(("resume",))
     if hasattr(w.a, "_resume_from_default"):
         acts.append(("resume-sample",))
+        for how in hows:
+            acts.append(("resume-sample", how))
     return acts
 
 
